@@ -103,6 +103,10 @@ func newEventFromUntrustedJSONV3(eventJSON []byte, roomVersion IRoomVersion) (PD
 		}
 	}
 
+	if err = res.populateEventID(roomVersion); err != nil {
+		return nil, err
+	}
+
 	err = CheckFields(res)
 
 	return res, err
@@ -124,6 +128,9 @@ func newEventFromTrustedJSONV3(eventJSON []byte, redacted bool, roomVersion IRoo
 	res.roomVersion = roomVersion.Version()
 	res.redacted = redacted
 	res.eventJSON = eventJSON
+	if err := res.populateEventID(roomVersion); err != nil {
+		return nil, err
+	}
 	return &res, nil
 }
 
